@@ -204,6 +204,16 @@ func checkCase(c Case) (Outcome, error) {
 	case "custom":
 		q := Custom
 		opts = append(opts, func(o *migrate.PlanOptions) { o.SchemaQualifier = &q })
+	case "own-name", "other-name":
+		// span cases only: the requested qualifier is spelled like one of the schemas the change set touches
+		q := Marker
+		if c.Qualifier == "other-name" {
+			q = "other_" + Marker
+			if strings.HasSuffix(c.Span, "differing-by-case") {
+				q = strings.ToUpper(Marker)
+			}
+		}
+		opts = append(opts, func(o *migrate.PlanOptions) { o.SchemaQualifier = &q })
 	}
 	pl := planner(c.Dialect)
 	if c.Dialect == "mysql" && c.Flavour != "" {
